@@ -160,6 +160,10 @@ Fixpoint ps_shrink (d : D) (fuel : nat) (p : phrase_sel) : outcome phrase_sel :=
     if Nat.ltb (ps_end p) (ps_begin p) then Panic 201
     else if Nat.ltb (clen (ps_com p)) (ps_end p) then Panic 202
     else if has_phrase d (ps_fuzzy p) (syl_prefix (slice (symbols (ps_com p)) (ps_begin p) (ps_end p))) then Ok p
+    (* fix e6644f0: a single syllable without any word under the current strategy ends the search
+       (the list is then empty); the pinned tree went on to begin > end and panicked *)
+    else if Nat.eqb (ps_end p - ps_begin p) 1 &&
+            match slice (symbols (ps_com p)) (ps_begin p) (ps_end p) with SymSyl _ :: _ => true | _ => false end then Ok p
     else if ps_fwd p
          then (if Nat.eqb (ps_end p) 0 then Panic 203
                else ps_shrink d k (mkPS (ps_begin p) (ps_end p - 1) (ps_fwd p) (ps_orig p) (ps_fuzzy p) (ps_com p)))
@@ -232,8 +236,10 @@ Definition ps_prev_selection_point (d : D) (p : phrase_sel) : outcome (option (n
 Definition ps_with_range (p : phrase_sel) (b e : nat) : phrase_sel :=
   mkPS b e (ps_fwd p) (ps_orig p) (ps_fuzzy p) (ps_com p).
 
-(* PhraseSelector::next (Down / Space at the last page): cycle to the next range that has a phrase *)
-Fixpoint ps_cycle (d : D) (fuel : nat) (p : phrase_sel) : outcome phrase_sel :=
+(* PhraseSelector::next (Down / Space at the last page): cycle to the next range that has a phrase;
+   since fix e6644f0 the cycle also ends when it is back at the range it started from (no other
+   range has a phrase) - the pinned tree looped forever there *)
+Fixpoint ps_cycle (d : D) (fuel : nat) (start : nat * nat) (p : phrase_sel) : outcome phrase_sel :=
   match fuel with
   | O => OutOfFuel
   | S k =>
@@ -250,14 +256,15 @@ Fixpoint ps_cycle (d : D) (fuel : nat) (p : phrase_sel) : outcome phrase_sel :=
     | Ok (b, e) =>
       match ps_range_has d p b e with
       | Ok true => Ok (ps_with_range p b e)
-      | Ok false => ps_cycle d k (ps_with_range p b e)
+      | Ok false => if Nat.eqb b (fst start) && Nat.eqb e (snd start) then Ok (ps_with_range p b e)
+                    else ps_cycle d k start (ps_with_range p b e)
       | Err x => Err x | Panic s => Panic s | OutOfFuel => OutOfFuel
       end
     | Err x => Err x | Panic s => Panic s | OutOfFuel => OutOfFuel
     end
   end.
 Definition ps_next (d : D) (p : phrase_sel) : outcome phrase_sel :=
-  ps_cycle d (S (S (S (clen (ps_com p))))) p.
+  ps_cycle d (S (S (S (clen (ps_com p))))) (ps_begin p, ps_end p) p.
 
 Fixpoint ps_jump_last (d : D) (fuel : nat) (p : phrase_sel) : outcome phrase_sel :=
   match fuel with
@@ -640,7 +647,7 @@ Definition entering_default (s : shared') (ev : keyevent) : outcome (shared' * t
   else
     if negb (o_fullwidth (opts s)) then commit_or_insert s (kunicode ev)
     else match full_width_symbol_input (kunicode ev) with
-         | None => Panic 603
+         | None => Ok (s, Spin BIgnore)        (* fix 2d9e3d1: was unwrap(), Panic 603 on the pinned tree *)
          | Some ch => commit_or_insert s ch
          end.
 
